@@ -143,8 +143,9 @@ def patched(jp_pkg, chooser):
             m.random = o
 
 
-def explore(jp_pkg, fn: Callable[[], Any], cap: int = 50000) -> Tuple[List[Any], bool, int]:
-    """Run fn under every outcome of every random choice.  Returns (results, complete, runs)."""
+def explore(jp_pkg, fn: Callable[[], Any], cap: int = 50000, stop=None) -> Tuple[List[Any], bool, int]:
+    """Run fn under every outcome of every random choice.  Returns (results, complete, runs).
+    `stop(result)` true ends the exploration at once (a run that did not terminate: its choice script is unbounded)."""
     ch = Chooser()
     results = []
     runs = 0
@@ -153,6 +154,8 @@ def explore(jp_pkg, fn: Callable[[], Any], cap: int = 50000) -> Tuple[List[Any],
             ch.reset_run()
             results.append(fn())
             runs += 1
+            if stop is not None and stop(results[-1]):
+                return results, False, runs
             if not ch.advance():
                 return results, True, runs
             if runs >= cap:
